@@ -43,7 +43,7 @@ def signature(v):
         else:
             cls = p
     rk = (v.get("res") or {}).get("k")
-    out = "%s:%s@%s" % (v["prop"], v["pred"], k)
+    out = "%s:%s@%s" % (v["prop"], v["pred"], k + ("-via-clone" if op.get("via") == "clone" else ""))
     if cls:
         out += ":" + cls
     if rk in ("panic", "signal"):
